@@ -98,13 +98,42 @@ fn rt_case(w: &mut CaseWriter, kind: u64, label: &str, ok: bool, known: u64, not
 }
 
 fn module_cases(w: &mut CaseWriter, name: &str, m: &Module) {
+    module_cases_opt(w, name, m, true)
+}
+
+fn card_has_nonfinite(c: &Card) -> bool {
+    match &c.body {
+        CardBody::ScalarFloat(x) if !x.is_finite() => return true,
+        CardBody::Closure(f) => {
+            if f.cards.iter().any(card_has_nonfinite) { return true; }
+        }
+        _ => {}
+    }
+    c.iter_children().any(card_has_nonfinite)
+}
+
+fn module_has_nonfinite(m: &Module) -> bool {
+    m.functions.iter().any(|(_, f)| f.cards.iter().any(card_has_nonfinite)) || m.submodules.iter().any(|(_, s)| module_has_nonfinite(s))
+}
+
+fn module_cases_opt(w: &mut CaseWriter, name: &str, m: &Module, run: bool) {
+    module_cases_opt2(w, name, m, run, true)
+}
+
+fn module_cases_opt2(w: &mut CaseWriter, name: &str, m: &Module, run: bool, source: bool) {
     let base = compile(m.clone(), CompileOptions::new()).map(|p| program_fields(&p)).map_err(|e| format!("{:?}", e.payload));
     for f in [Fmt::Json, Fmt::Yaml] {
+        if !source { break; }
         let r = enc(f, m).and_then(|b| dec::<Module>(f, &b));
         let (ok, note) = match r {
             Ok(m2) => {
+                let m2dbg = m2.clone();
                 let again = compile(m2, CompileOptions::new()).map(|p| program_fields(&p)).map_err(|e| format!("{:?}", e.payload));
-                (again == base, format!("module {} through {:?}: recompiled program differs", name, f))
+                let _ = &m2dbg;
+                let (d1, d2) = (format!("{:?}", base), format!("{:?}", again));
+                let at = d1.bytes().zip(d2.bytes()).position(|(x, y)| x != y).unwrap_or(d1.len().min(d2.len()));
+                let ctx = |d: &str| d.chars().skip(at.saturating_sub(60)).take(160).collect::<String>();
+                (again == base, format!("module {} through {:?}: recompiled program differs; source differs at {}: `{}` vs `{}`", name, f, at, ctx(&d1), ctx(&d2)))
             }
             Err(e) => (false, format!("module {} through {:?}: {}", name, f, e)),
         };
@@ -112,13 +141,13 @@ fn module_cases(w: &mut CaseWriter, name: &str, m: &Module) {
     }
     if let Ok(p) = compile(m.clone(), CompileOptions::new()) {
         let fields = program_fields(&p);
-        let out0 = run_globals(&p);
+        let out0 = if run { run_globals(&p) } else { String::new() };
         for f in [Fmt::Json, Fmt::Cbor, Fmt::Bincode] {
             let r = enc(f, &p).and_then(|b| dec::<CaoCompiledProgram>(f, &b));
             let (ok, note) = match r {
                 Ok(p2) => {
                     let same_fields = program_fields(&p2) == fields;
-                    let same_run = run_globals(&p2) == out0;
+                    let same_run = !run || run_globals(&p2) == out0;
                     (same_fields && same_run, format!("compiled {} through {:?}: fields equal={} outcome equal={}", name, f, same_fields, same_run))
                 }
                 Err(e) => (false, format!("compiled {} through {:?}: {}", name, f, e)),
@@ -252,6 +281,26 @@ pub fn gen(a: &Args) {
         out::describe_current(&format!("C11 module {}", name));
         module_cases(&mut w, &name, &m);
     }
+    // random module trees (submodules, imports, closures, empty function bodies, faults): the module through
+    // JSON / YAML and, when it compiles, the program through JSON / CBOR / bincode.  Fields only: the fixed programs
+    // above are also run; a program whose every field is identical runs identically (C17).
+    {
+        let nmods = if a.tier == "quick" { 60 } else { 600 };
+        let cfg = crate::modgen::GenCfg { allow_huge: false, long_strings: false, ..Default::default() };
+        let mut stats = crate::modgen::GenStats::default();
+        for i in 0..nmods {
+            out::describe_current(&format!("C11 random module {}", i));
+            let m = crate::modgen::gen_module_bounded(&mut rng, &cfg, &mut stats);
+            if m.functions.iter().any(|(n, f)| n != "main" && f.cards.is_empty()) { w.count("module.random.empty_function"); }
+            if !m.submodules.is_empty() { w.count("module.random.submodules"); }
+            w.count("module.random");
+            // non-finite float literals do not survive JSON (A-28, the fixed case below); such modules only take
+            // part in the compiled-program round trips
+            let src = !module_has_nonfinite(&m);
+            if !src { w.count("module.random.nonfinite_literal"); }
+            module_cases_opt2(&mut w, &format!("random{}", i), &m, false, src);
+        }
+    }
     // a module with non-finite float literals through JSON / YAML
     {
         let m = progs::module(vec![("main", progs::f(vec![
@@ -267,7 +316,8 @@ pub fn gen(a: &Args) {
             rt_case(&mut w, 1, &format!("module_nonfinite.{:?}", f), ok, known, format!("module with an infinite float literal through {:?}", f));
         }
     }
-    while w.len() < a.n {
+    let target = w.len() + a.n;
+    while w.len() < target {
         out::describe_current("C11 map / value round trip");
         if rng.chance(if a.tier == "quick" { 2 } else { 3 }, 5) { map_cases(&mut rng, &mut w, a.tier == "quick"); } else { value_case(&mut rng, &mut w); }
     }
